@@ -403,6 +403,6 @@ impl Property for C18P {
         true
     }
     fn block_timeout_s(&self, _tier: Tier) -> u64 {
-        20
+        60
     }
 }
